@@ -122,16 +122,6 @@ def finish(prop: str, tier: str, results: list[RuleResult], explanation: str,
     for r in results:
         counts.setdefault(f'{r.rule}.instances', len(r.instances))
         counts.setdefault(f'{r.rule}.obligations', r.obligations)
-    for name, minimum in baselines.items():
-        got = counts.get(name)
-        if got is None:
-            print(f'ANALYSIS-ERROR property={prop} baseline {name!r} was not measured')
-            return 2
-        if got < minimum:
-            print(f'ANALYSIS-ERROR property={prop} instance count {name}={got} fell below the '
-                  f'hand-confirmed baseline {minimum}: the rule may be passing vacuously')
-            return 2
-
     violations: list[Finding] = []
     known_hit: list[Finding] = []
     for r in results:
@@ -140,6 +130,19 @@ def finish(prop: str, tier: str, results: list[RuleResult], explanation: str,
                 known_hit.append(f)
             else:
                 violations.append(f)
+
+    # a shrunken instance set makes a clean verdict untrustworthy (exit 2); when violations
+    # were found anyway they are reported (exit 1) and the shortfall is only mentioned
+    for name, minimum in baselines.items():
+        got = counts.get(name)
+        if got is None or got < minimum:
+            msg = (f'baseline {name!r} was not measured' if got is None else
+                   f'instance count {name}={got} fell below the hand-confirmed baseline '
+                   f'{minimum}: the rule may be passing vacuously')
+            if not violations:
+                print(f'ANALYSIS-ERROR property={prop} {msg}')
+                return 2
+            print(f'NOTE property={prop} {msg}')
 
     # runs against a scratch copy (VERIF_REPO) must not touch the committed evidence
     scratch = os.environ.get('VERIF_REPO', '/repo') != '/repo' or \
